@@ -147,8 +147,8 @@ Proof.
     rewrite <- ?app_assoc;
     try (unfold last_will_ok in H2; apply andb_true_iff in H2 as [H2 _]; apply str_ok_utf8 in H2);
     try apply str_ok_utf8 in H4;
-    repeat (first [rewrite take_str_str16 by assumption | rewrite take_bin_str16]; cbn [obind]);
-    reflexivity.
+    repeat (cbn [obind]; first [rewrite take_str_str16 by assumption | rewrite take_bin_str16]);
+    cbn [obind]; reflexivity.
 Qed.
 
 Lemma suback_codes st : map sub_rc_byte st = map suback_code st.
